@@ -54,15 +54,17 @@ func c09Trees(n int) [][]int {
 }
 
 type c09Scenario struct {
-	N        int    `json:"files"`
-	Parent   []int  `json:"parent"`
-	Kind     string `json:"kind"` // account commodity payee
-	Counts   []int  `json:"occurrences"`
-	Decl     int    `json:"declaration_in"` // -1 none
-	Root     bool   `json:"workspace_root"`
-	EditFile int    `json:"unsaved_edit_in"` // -1 none
-	EditAdd  bool   `json:"unsaved_edit_adds"`
-	OpenAll  bool   `json:"all_open"`
+	N      int    `json:"files"`
+	Parent []int  `json:"parent"`
+	Kind   string `json:"kind"` // account commodity payee
+	Counts []int  `json:"occurrences"`
+	Decl   int    `json:"declaration_in"` // -1 none
+	// DeclTwice: the declaring file has the directive twice
+	DeclTwice bool `json:"declared_twice,omitempty"`
+	Root      bool `json:"workspace_root"`
+	EditFile  int  `json:"unsaved_edit_in"` // -1 none
+	EditAdd   bool `json:"unsaved_edit_adds"`
+	OpenAll   bool `json:"all_open"`
 	// Extra include directives (from, to) on top of the tree: a file reachable along two paths
 	Extra [][2]int `json:"extra_includes,omitempty"`
 	// History before the requests: "" (documents just opened), "reanalyse" (the
@@ -159,6 +161,9 @@ func (sc c09Scenario) journal(f, count int, sym string) *gmodel.Journal {
 			j.Entries = append(j.Entries, gmodel.Entry{Kind: gmodel.EntryAccount, Account: sym})
 		case "commodity":
 			j.Entries = append(j.Entries, gmodel.Entry{Kind: gmodel.EntryCommodity, Sym: sym, Format: "1.000,00 " + sym})
+		}
+		if sc.DeclTwice {
+			j.Entries = append(j.Entries, j.Entries[len(j.Entries)-1])
 		}
 	}
 	tx := func(day int, payee, account, comm string) gmodel.Entry {
@@ -267,6 +272,11 @@ func (sc c09Scenario) features(req int) string {
 		f = append(f, "the root's include lines arrived with an edit")
 	case "saved":
 		f = append(f, "the edit was saved and the file closed")
+	case "discard-opened":
+		f = append(f, "the file was opened with unsaved text and closed again")
+	}
+	if sc.DeclTwice {
+		f = append(f, "declared twice in the declaring file")
 	}
 	return strings.Join(f, ", ")
 }
@@ -374,6 +384,16 @@ func c09Run(c *core.Ctx, dir string, sc c09Scenario, only *c09Case) {
 			if occ := c09Occurrences(current(req), req, sc.Kind, sym); len(occ) > 0 {
 				s.Call("textDocument/references", fmt.Sprintf(`{"textDocument":{"uri":%s},"position":{"line":%d,"character":%d},"context":{"includeDeclaration":true}}`, wire.Q(uriOf(req)), occ[0].Range.Start.Line, occ[0].Range.Start.Char))
 			}
+			s.DidClose(uriOf(ef))
+			editor[ef], open[ef] = disk[ef], false
+			kept = true
+		}
+		if sc.History == "discard-opened" && sc.EditFile >= 0 && sc.EditFile != req {
+			// the edited file was opened with its unsaved text straight away (restored
+			// buffer) and closed without any change: the saved text counts again
+			ef := sc.EditFile
+			s.DidOpen(uriOf(req), current(req).Text)
+			s.DidOpen(uriOf(ef), editor[ef].Text)
 			s.DidClose(uriOf(ef))
 			editor[ef], open[ef] = disk[ef], false
 			kept = true
@@ -670,6 +690,11 @@ func checkC09(c *core.Ctx) {
 											}
 											sc := c09Scenario{N: n, Parent: tree, Kind: kind, Counts: append([]int(nil), counts...), Decl: decl, Root: root, EditFile: ef, EditAdd: add, OpenAll: openAll}
 											c09Run(c, dir, sc, nil)
+											if decl >= 0 && kind != "payee" && ef < 0 && !openAll && (total <= 2 || c.Thorough()) {
+												tw := sc
+												tw.DeclTwice = true
+												c09Run(c, dir, tw, nil)
+											}
 											if kind != "commodity" && ef < 0 && !openAll && (total <= 2 || c.Thorough()) {
 												nb := sc
 												nb.NonBMP = true
@@ -684,6 +709,8 @@ func checkC09(c *core.Ctx) {
 													h.History = "discard"
 													c09Run(c, dir, h, nil)
 													h.History = "saved"
+													c09Run(c, dir, h, nil)
+													h.History = "discard-opened"
 													c09Run(c, dir, h, nil)
 												}
 												if root && ef != 0 {
